@@ -18,6 +18,7 @@ type SpecEnv struct {
 	lookup    func(name string) *Val
 	bound     map[string]*Val
 	calleeKey string
+	calleePost bool // evaluating a callee's ensures at a call site (assumed, not proved)
 }
 
 func (e *SpecEnv) withBound(name string, v *Val) *SpecEnv {
@@ -406,6 +407,51 @@ func (c *FnCtx) specCall(env *SpecEnv, x *ast.CallExpr) *Val {
 	case "exstr":
 		c.declSeq(SStr)
 		return quant("exists", SStr, false)
+	case "allof", "exof":
+		bl, ok := x.Args[0].(*ast.BasicLit)
+		if !ok {
+			c.specErr("%s: first argument must be a sort name string", name)
+			return &Val{T: "false", S: SBool}
+		}
+		sn, _ := strconv.Unquote(bl.Value)
+		so, err := parseSortName(sn)
+		if err != nil {
+			c.specErr("%s: %v", name, err)
+			return &Val{T: "false", S: SBool}
+		}
+		id, ok := x.Args[1].(*ast.Ident)
+		if !ok {
+			c.specErr("%s: second argument must be an identifier", name)
+			return &Val{T: "false", S: SBool}
+		}
+		c.decls.needSort(so)
+		if so == SStr || isSeq(so) {
+			c.declSeq(so)
+		}
+		c.nfresh++
+		vn := fmt.Sprintf("%s!q%d", id.Name, c.nfresh)
+		body := c.specBool(env.withBound(id.Name, &Val{T: vn, S: so}), x.Args[2])
+		q := "forall"
+		if name == "exof" {
+			q = "exists"
+		}
+		return &Val{T: fmt.Sprintf("(%s ((%s %s)) %s)", q, vn, so, body), S: SBool}
+	case "constmap":
+		if bl, ok := x.Args[0].(*ast.BasicLit); ok {
+			sn, _ := strconv.Unquote(bl.Value)
+			so, err := parseSortName(sn)
+			if err == nil {
+				c.decls.needSort(so)
+				return &Val{T: fmt.Sprintf("((as const %s) %s)", so, arg(1).T), S: so}
+			}
+		}
+	case "funcref":
+		if bl, ok := x.Args[0].(*ast.BasicLit); ok {
+			k, _ := strconv.Unquote(bl.Value)
+			n := "F_" + sanitizeSym(k)
+			c.decls.declFun(n, nil, SInt)
+			return &Val{T: n, S: SInt}
+		}
 	case "store":
 		a, k, v := arg(0), arg(1), arg(2)
 		return &Val{T: tApp("store", a.T, k.T, v.T), S: a.S}
@@ -448,7 +494,18 @@ func (c *FnCtx) specCall(env *SpecEnv, x *ast.CallExpr) *Val {
 	case "fresh":
 		// fresh(r): r was allocated by this call (not allocated before)
 		c.decls.declFun("allocated0", []Sort{SInt}, SBool)
-		return &Val{T: tNot(tApp("allocated0", arg(0).T)), S: SBool}
+		r := arg(0).T
+		t := tAnd(tApp(">", r, "0"), tNot(tApp("allocated0", r)))
+		if env.calleePost {
+			// allocated by the callee just now: distinct from everything this function allocated before
+			for _, o := range c.refs {
+				if o != r {
+					t = tAnd(t, tNot(tEq(r, o)))
+				}
+			}
+			c.refs = append(c.refs, r)
+		}
+		return &Val{T: t, S: SBool}
 	}
 	if gf, ok := c.V.specs.Ghosts[name]; ok {
 		var args []*Val
@@ -467,6 +524,13 @@ func (c *FnCtx) ghostCall(env *SpecEnv, gf *GhostFunc, args []*Val) *Val {
 	if len(args) != len(gf.Params) {
 		c.specErr("ghost function %s: wrong number of arguments", gf.Name)
 		return &Val{T: c.fresh("specbad", gf.Ret), S: gf.Ret}
+	}
+	if gf.Macro {
+		e2 := env
+		for i, p := range gf.Params {
+			e2 = e2.withBound(p, args[i])
+		}
+		return c.specEval(e2, gf.Body)
 	}
 	c.declGhost(gf)
 	ts := make([]string, len(args))
